@@ -14,8 +14,8 @@ ap.add_argument("--own-only", action="store_true")
 ap.add_argument("--neighbours", action="store_true", help="own property's check plus the checks of related properties")
 ap.add_argument("--fresh", action="store_true", help="discard earlier results")
 NEIGH = {"C01": ["C01", "C02", "C04", "C06"], "C02": ["C02", "C01", "C06", "C13"], "C04": ["C04", "C08", "C12", "C06"],
-         "C05": ["C05", "C06", "C12"], "C06": ["C06", "C05"], "C08": ["C08", "C04", "C06", "C16"], "C09": ["C09", "C08"],
-         "C11": ["C11", "C18"], "C12": ["C12", "C04", "C06", "C16"], "C13": ["C13", "C12", "C06", "C01"],
+         "C05": ["C05", "C06", "C12"], "C06": ["C06", "C05"], "C08": ["C08", "C04", "C06", "C16", "C12"], "C09": ["C09", "C08"],
+         "C11": ["C11", "C18"], "C12": ["C12", "C04", "C06", "C16", "C11"], "C13": ["C13", "C12", "C06", "C01"],
          "C16": ["C16", "C12", "C08", "C06"], "C18": ["C18", "C11", "C12"], "C19": ["C19", "C06"]}
 a = ap.parse_args()
 muts = sorted(d for d in os.listdir(f"{V}/seeded") if os.path.isdir(f"{V}/seeded/{d}") and os.path.exists(f"{V}/seeded/{d}/patch.diff"))
